@@ -272,8 +272,12 @@ def deadRec (hid : Nat) : Rec := { hid := hid, cmd := default }
 
 def DB.getR (db : DB) (hid : Nat) : Rec := (db.recs.find? (·.hid == hid)).getD (deadRec hid)
 
-def DB.modR (db : DB) (hid : Nat) (f : Rec → Rec) : DB :=
-  { db with recs := db.recs.map (fun r => if r.hid == hid then f r else r) }
+/-- apply `f` to the (first) record with identity `hid` -/
+def modRecs (hid : Nat) (f : Rec → Rec) : List Rec → List Rec
+  | [] => []
+  | r :: rs => if r.hid == hid then f r :: rs else r :: modRecs hid f rs
+
+def DB.modR (db : DB) (hid : Nat) (f : Rec → Rec) : DB := { db with recs := modRecs hid f db.recs }
 
 /-- the record becomes the youngest holder: moved to the end of the list -/
 def DB.toEnd (db : DB) (hid : Nat) : DB :=
